@@ -27,6 +27,10 @@ CHECKS = {
             "explicit-state exploration of reorg schedules over the real ApplyBlock/RevertBlock with snapshot-equality and byte-identical re-apply oracles",
             "For every accepted block of every explored history and every k<=R: RevertUpdate diffs mirror the ApplyUpdate diffs in reverse order, the store returns to exactly the pre-block snapshot (ids, fields, leaf indices, proofs), every element verifies against the parent state's reference forest, and re-applying yields byte-identical state encodings and update digests; revert(k)+competing blocks are part of the explored move set.",
             "Store semantics follow the documented diff semantics (created/spent/revised/resolved); bounds as reported.", "3/C06"),
+    "C07": ("E1", "model_checking",
+            "explicit-state exploration of v1/v2 contract life cycles with an independent payout ledger, plus exhaustive (file shape x challenge index x era) enumeration of storage proofs through the real ValidateBlock",
+            "(a) Over all explored contract histories (formation shapes, revision kinds, renewals, proofs, expirations, pair blocks, reverts) every contract resolves at most once and creates exactly the outputs of its latest accepted revision (final outputs + rollover on renewal, missed on expiry) with the right maturity; every static rule violation (changed totals, lower revision number, raised missed host value, changed collateral, filesize>capacity, duplicate proofs, proof+outputs) is rejected while its rule-abiding control is accepted. (b) For every file shape and every challenge index in the three v1 leaf eras and v2: the honest proof is accepted and every corruption (other leaf, flipped data/proof hash, dropped/extra hash, other size, other chain index) is rejected.",
+            "Known finding registered: the v1 verifier accepts a shorter proof of another leaf in unbalanced trees (consensus rule, not repaired). Legacy era quirks (era-2 exact multiples of 64, empty files before the storage-proof fork) are counted as unspecified, not asserted.", "3/C07"),
     "C15": ("E2", "exploration",
             "bounded exhaustive enumeration (all ordered pairs of a boundary set x all operations) against math/big",
             "Every Currency operation on every ordered pair of a boundary set (bit boundaries, limb mixes, divisors of every "
